@@ -9,6 +9,7 @@ import (
 	"fmt"
 	"os"
 	"strconv"
+	"strings"
 	"testing"
 
 	"github.com/twmb/franz-go/pkg/kgo"
@@ -117,6 +118,20 @@ func TestTraces(t *testing.T) {
 	specKind := map[string]string{"sticky": "sticky", "stickykey": "sticky", "roundrobin": "roundrobin", "leastbackup": "leastbackup", "uniform": "uniform", "uniformadpt": "uniform"}
 	depth := raw.EnvInt("VERIF_DEPTH", 5)
 	nmax := raw.EnvInt("VERIF_NMAX", 3)
+	// VERIF_NSET (e.g. "1,2,6,12"): partition counts to enumerate over instead of 1..nmax — sparse sets let the writable
+	// partition count shrink by more than one between calls
+	nset := []int{}
+	for i := 1; i <= nmax; i++ {
+		nset = append(nset, i)
+	}
+	if v := os.Getenv("VERIF_NSET"); v != "" {
+		nset = nset[:0]
+		for _, f := range strings.Split(v, ",") {
+			x, _ := strconv.Atoi(f)
+			nset = append(nset, x)
+		}
+		nmax = len(nset)
+	}
 	nops := nmax + 1
 	total := 1
 	for i := 0; i < depth; i++ {
@@ -140,7 +155,7 @@ func TestTraces(t *testing.T) {
 					events++
 					continue
 				}
-				n := op + 1
+				n := nset[op]
 				val := make([]byte, 8+(step*5+code)%9)
 				rec := &kgo.Record{Value: val}
 				size := 6 + len(val)
